@@ -3,6 +3,7 @@
 package bag
 
 import (
+	"reflect"
 	"strings"
 
 	"github.com/ohler55/ojg/jp"
@@ -120,6 +121,21 @@ func setAt(s *slip.Scope, obj *flavors.Instance, x jp.Expr, value any, depth int
 			break
 		}
 	}
+	if !simple {
+		// MustSet stores the one array or map at every match, give each match
+		// but the first a copy of its own (also when MustSet stops at an
+		// error after some matches were set).
+		defer func() {
+			switch tv := value.(type) {
+			case []any:
+				if 0 < len(tv) {
+					unshare(obj.Any, reflect.ValueOf(tv).Pointer(), value, new(bool))
+				}
+			case map[string]any:
+				unshare(obj.Any, reflect.ValueOf(tv).Pointer(), value, new(bool))
+			}
+		}()
+	}
 	x.MustSet(obj.Any, value)
 	if simple && !x.Has(obj.Any) {
 		slip.ErrorPanic(s, depth, "can not set a value at %s", x)
@@ -191,6 +207,39 @@ func ObjectToBag(s *slip.Scope, obj slip.Object, depth int) (v any) {
 		v = val.Simplify()
 	}
 	return
+}
+
+// unshare replaces every occurrence of the array or map shared (known by its
+// address) in data except the first with a copy.
+func unshare(data any, addr uintptr, shared any, seen *bool) {
+	again := func(child any) bool {
+		switch child.(type) {
+		case []any, map[string]any:
+			if reflect.ValueOf(child).Pointer() == addr && reflect.TypeOf(child) == reflect.TypeOf(shared) {
+				if *seen {
+					return true
+				}
+				*seen = true
+				return false
+			}
+			unshare(child, addr, shared, seen)
+		}
+		return false
+	}
+	switch td := data.(type) {
+	case []any:
+		for i, child := range td {
+			if again(child) {
+				td[i] = dupData(shared)
+			}
+		}
+	case map[string]any:
+		for k, child := range td {
+			if again(child) {
+				td[k] = dupData(shared)
+			}
+		}
+	}
 }
 
 // dupData makes a deep copy of bag data.
